@@ -300,6 +300,7 @@ inductive Mode where
   | piTarget (acc : Str)
   | piWS (target : Str)
   | piData (target : Str) (acc : Str) (q : Bool)
+  | piClose (target : Str)
   deriving Repr, DecidableEq
 
 structure PState where
@@ -462,8 +463,9 @@ def step (s : PState) (c : Char) : Option PState :=
     if nameChar c then some { s with mode := .piTarget (c :: acc) }
     else if !validTarget acc.reverse then none
     else if isS c then some { s with mode := .piWS acc.reverse }
-    else if c = '?' then some { s with mode := .piData acc.reverse [] true }
+    else if c = '?' then some { s with mode := .piClose acc.reverse }     -- `<?target?>`
     else none
+  | .piClose t => if c = '>' then some { s with mode := .content, evs := .pi t [] :: s.evs } else none
   | .piWS t =>
     if isS c then some s
     else if c = '?' then some { s with mode := .piData t [] true }
